@@ -78,6 +78,18 @@ def build():
         if re.search(r"\bfn\s+%s\b" % op, tp_impl):
             raise GenError("PartialOrd for Timestamp overrides `%s`" % op)
     defs.append(("operators_derive_from_partial_cmp", "bool", "true"))
+    # whole SOA records order their serial as a plain u32 (Soa's derived-style
+    # comparison); code deciding "which version is newer" must therefore compare
+    # Serial values, never Soa values: no ordering comparison on SOA records in
+    # the transfer interpreter / iterator / zone updater
+    for rel in ("src/net/xfr/protocol/interpreter.rs", "src/net/xfr/protocol/iterator.rs", "src/zonetree/update.rs"):
+        body = strip_comments(read(rel))
+        body = body.split("#[cfg(test)]")[0]
+        for m in re.finditer(r"\b(\w*soa\w*)\s*(<=|>=|<|>)\s*&?\s*(?:self\.)?(\w*soa\w*)\b", body):
+            raise GenError("%s orders SOA records with `%s %s %s` (Soa compares serials as plain u32; RFC 1982 needs Serial comparison)" % (rel, m.group(1), m.group(2), m.group(3)))
+        if re.search(r"\bsoa\w*\.(?:partial_cmp|cmp|canonical_cmp)\(", body):
+            raise GenError("%s orders SOA records with a comparison method" % rel)
+    defs.append(("transfer_code_never_orders_soa_records", "bool", "true"))
     return defs
 
 if __name__ == "__main__":
